@@ -14,9 +14,9 @@ import (
 // C15 — inspecting commands never write; rewriting commands touch only their targets.
 
 type c15Case struct {
-	Proj *project `json:"proj"`
-	Cmd  string   `json:"cmd"`  // symbolic command name
-	DirAt string  `json:"dir"`  // where -d points: "", "rules", "regex-assembly/include", "tests/regression"
+	Proj  *project `json:"proj"`
+	Cmd   string   `json:"cmd"` // symbolic command name
+	DirAt string   `json:"dir"` // where -d points: "", "rules", "regex-assembly/include", "tests/regression"
 }
 
 var (
@@ -26,7 +26,8 @@ var (
 )
 
 var c15Inspecting = []string{"generate", "generate-stdin", "generate-missing", "compare", "compare-all", "compare-all-github", "compare-github", "format-check", "format-check-all", "format-check-all-github",
-	"renumber-check", "renumber-check-all", "renumber-check-all-github", "version", "completion-bash", "completion-zsh", "completion-fish", "completion-powershell", "help", "regex-help", "copyright-noversion", "copyright-badversion", "update-badarg", "format-missing"}
+	"renumber-check", "renumber-check-all", "renumber-check-all-github", "version", "completion-bash", "completion-zsh", "completion-fish", "completion-powershell", "help", "regex-help", "copyright-noversion", "copyright-badversion", "update-badarg", "format-missing",
+	"format-check-missing-rule", "format-check-missing-chain", "format-check-missing-include", "renumber-decoy-orig", "renumber-decoy-txt", "renumber-decoy-readme", "renumber-check-decoy", "compare-missing", "update-missing-assembly"}
 var c15Rewriting = []string{"format", "format-include", "format-all", "update", "update-all", "renumber", "renumber-all", "copyright"}
 
 func c15Check(env *core.Env, cc core.Case) core.Verdict {
@@ -84,6 +85,25 @@ func c15Check(env *core.Env, cc core.Case) core.Verdict {
 		inspecting, args = true, []string{"-o", "github", "regex", "format", "-c", "-a"}
 	case "format-missing":
 		inspecting, args = true, []string{"regex", "format", "nosuchinclude"}
+	case "format-check-missing-rule":
+		inspecting, args = true, []string{"regex", "format", "--check", "932999"}
+	case "format-check-missing-chain":
+		inspecting, args = true, []string{"regex", "format", "-c", t0.ID + "-chain9"}
+	case "format-check-missing-include":
+		inspecting, args = true, []string{"regex", "format", "--check", "unix-shel"}
+	case "renumber-decoy-orig":
+		// only 932777.yaml.orig exists: not a test file, must not be touched
+		inspecting, args = true, []string{"util", "renumber-tests", "932777"}
+	case "renumber-decoy-txt":
+		inspecting, args = true, []string{"util", "renumber-tests", "932778.txt"}
+	case "renumber-decoy-readme":
+		inspecting, args = true, []string{"util", "renumber-tests", "README"}
+	case "renumber-check-decoy":
+		inspecting, args = true, []string{"util", "renumber-tests", "--check", "932777"}
+	case "compare-missing":
+		inspecting, args = true, []string{"regex", "compare", "999999"}
+	case "update-missing-assembly":
+		inspecting, args = true, []string{"regex", "update", "999998"}
 	case "renumber-check":
 		inspecting, args = true, []string{"util", "renumber-tests", "--check", testRule}
 	case "renumber-check-all":
@@ -212,7 +232,7 @@ func init() {
 	register(&core.Property{
 		ID:    "C15",
 		Level: "exploration",
-		Rule: "generated CRS trees (1..3 rules files, assembly files with includes/definitions/stored names, test files, setup example) with ~25 decoys (near-miss extensions and names such as 932100.ra.bak, 9321000.yaml, 920110 without extension, *.conf~, notes.example.txt, README files containing marker text, and a sibling directory outside the root with rules/assembly/test files) x 24 inspecting command lines (generate file/stdin/missing, compare single/--all/github, format --check single/--all/github, renumber-tests --check single/--all/github, version, completion for 4 shells, help, failing invocations) and 8 rewriting ones (format single/include/--all, update single/--all, renumber-tests single/--all, update-copyright) x -d at the root or 1..2 levels below. Every run is traced with strace -f (file-related and attribute system calls). " +
+		Rule: "generated CRS trees (1..3 rules files, assembly files with includes/definitions/stored names, test files, setup example) with ~25 decoys (near-miss extensions and names such as 932100.ra.bak, 9321000.yaml, 920110 without extension, *.conf~, notes.example.txt, README files containing marker text, and a sibling directory outside the root with rules/assembly/test files) x 33 inspecting command lines (generate file/stdin/missing, compare single/--all/github, format --check single/--all/github, renumber-tests --check single/--all/github, version, completion for 4 shells, help, failing invocations, --check and single-target runs on missing targets and on decoys that only resemble a target) and 8 rewriting ones (format single/include/--all, update single/--all, renumber-tests single/--all, update-copyright) x -d at the root or 1..2 levels below. Every run is traced with strace -f (file-related and attribute system calls). " +
 			"Oracle: inspecting commands perform no successful write-class system call (open for writing/creating, unlink, rename, mkdir, chmod, truncate, link ...; /dev/null excepted) and leave the sandbox snapshot (root plus outside sibling) identical; rewriting commands change only paths allowed by a path model written from the statement, perform no write-class call outside the root or on a pre-existing non-target. Non-trivial = every traced run; distinct by (tree, command, -d).",
 		Cases: func(env *core.Env, rng *rand.Rand) []core.Case {
 			trees := env.N(6, 80)
